@@ -40,6 +40,9 @@ func genSigma(prefix []int, maxSyms int, emit func(string)) {
 	rec(buf, len(prefix))
 }
 
+// symCount is the number of sigma symbols of a family S string (only "é" is longer than one byte).
+func symCount(s string) int { return len(s) - strings.Count(s, "é") }
+
 // ---- family N: structured names around the limits ---------------------------
 
 func rep(c string, n int) string { return strings.Repeat(c, n) }
@@ -72,20 +75,20 @@ func partAlphabet(thorough bool) []string {
 
 // a form is the list of separators between consecutive parts
 var forms = map[string][]string{
-	"m":         {},
-	"m:t":       {":"},
-	"n/m":       {"/"},
-	"m@d":       {"@"},
-	"n/m:t":     {"/", ":"},
-	"h/n/m":     {"/", "/"},
-	"m:t:x":     {":", ":"},
-	"h/n/m:t":   {"/", "/", ":"},
-	"h/n/m/t":   {"/", "/", "/"}, // the on-disk relative path form
-	"n:t/m:t":   {":", "/", ":"},
+	"m":          {},
+	"m:t":        {":"},
+	"n/m":        {"/"},
+	"m@d":        {"@"},
+	"n/m:t":      {"/", ":"},
+	"h/n/m":      {"/", "/"},
+	"m:t:x":      {":", ":"},
+	"h/n/m:t":    {"/", "/", ":"},
+	"h/n/m/t":    {"/", "/", "/"}, // the on-disk relative path form
+	"n:t/m:t":    {":", "/", ":"},
 	"h\\n\\m\\t": {"\\", "\\", "\\"},
-	"x/h/n/m:t": {"/", "/", "/", ":"},
-	"h/n/m/t/x": {"/", "/", "/", "/"},
-	"h/n/m:t:x": {"/", "/", ":", ":"},
+	"x/h/n/m:t":  {"/", "/", "/", ":"},
+	"h/n/m/t/x":  {"/", "/", "/", "/"},
+	"h/n/m:t:x":  {"/", "/", ":", ":"},
 }
 
 var formsFull = []string{"m", "m:t", "n/m", "m@d", "n/m:t", "h/n/m", "m:t:x", "h/n/m:t", "h/n/m/t", "n:t/m:t", "h\\n\\m\\t"}
@@ -200,17 +203,18 @@ func genDigestSigma(sepIdx int, k int, emit func(string)) {
 // ---- item list ------------------------------------------------------------------
 
 type bounds struct {
-	SigmaLen       int // family S: symbols
-	DigestSigmaLen int // family D2: inserted symbols
-	FSSigmaLen     int // family F: symbols of the names put on a real directory
-	Thorough       bool
+	SigmaLen          int // family S: symbols
+	BlobsPathSigmaLen int // family S strings up to this many symbols are also fed to server.GetBlobsPath
+	DigestSigmaLen    int // family D2: inserted symbols
+	FSSigmaLen        int // family F: symbols of the names put on a real directory
+	Thorough          bool
 }
 
 func tierBounds(thorough bool) bounds {
 	if thorough {
-		return bounds{SigmaLen: 7, DigestSigmaLen: 3, FSSigmaLen: 4, Thorough: true}
+		return bounds{SigmaLen: 7, BlobsPathSigmaLen: 5, DigestSigmaLen: 3, FSSigmaLen: 4, Thorough: true}
 	}
-	return bounds{SigmaLen: 5, DigestSigmaLen: 2, FSSigmaLen: 4}
+	return bounds{SigmaLen: 5, BlobsPathSigmaLen: 3, DigestSigmaLen: 2, FSSigmaLen: 4}
 }
 
 // items lists the work items of the pure (no file system state) families.
